@@ -53,6 +53,35 @@ CHECKS = {
     "C12": ("Lean proof (dense-index invariant of ConsecutiveIndexPairs and ColumnsRegion) + differential correspondence",
             "C12.kth / columns_kth: the k-th push since creation, merge or clear returns k; columns_row_exact: the row reads back with "
             "exactly its own length. Scripts use empty items and ragged rows across clear/merge on every consec/columns entry.", "§6 C12"),
+    "C06": ("Lean proof (Huffman optimality over Kraft-feasible assignments, canonical codes prefix-free, builder is a greedy run) "
+            "+ bounded-exhaustive and random correspondence with bit-range oracle",
+            "C06.optimal: for every valid frequency table and every competing prefix code with >= 1 bit per symbol the lengths "
+            "createFrom assigns cost no more (empty, single-symbol and general case in one statement, any tie-break); "
+            "canonical_is_prefix_free, code_lt, lengths_kraft_eq_one, single_symbol_one_bit, lookup_some_iff. The bit-level "
+            "encoder/decoder refinement (push appends exactly the code words; decode inverts) is proved in Props/C06Bits when "
+            "present and otherwise carried by the correspondence: every pushed item is read back on the real container, every bit "
+            "range is checked against code lengths measured on that container, and total cost against a reference Huffman.", "§6 C06"),
+    "C07": ("Lean proof (dictionary well-formedness invariant over all merge generations, exact characterisation of refusal) + "
+            "differential correspondence incl. scarce-tag and >1024-string regimes",
+            "C07.generations: every region reachable by push/clear/merge from any sources satisfies WF; under WF a push either is "
+            "refused exactly when the literal is ambiguous (refuses_ambiguous) or reads back exactly (roundtrip) and leaves earlier "
+            "indices unchanged (frame); accepts_empty; heavy_hitters_one_byte_partial / all_pushed_tagged: dictionary hits cost one "
+            "byte and, below the compaction threshold with enough free tags, every source string is a hit. The Misra-Gries "
+            "compaction bound itself is not proved (stated in DESIGN.md).", "§6 C07"),
+    "C13": ("Lean proof (get agrees with into_owned[k]? for both representations, none beyond len) + exhaustive-position correspondence",
+            "C13.readSlice_get / readColumns_get / stack_get: for well-formed items get k = owned[k]?, in particular a panic for every "
+            "k >= len; len/is_empty/iter agree. Scripts probe every item of regions with adjacent items at every position 0..len+2 "
+            "and huge positions in both representations.", "§6 C13"),
+    "C14": ("Lean proof (IntoOwned laws of the modelled read items) + differential correspondence",
+            "C14.cloneOnto_eq (zip/extend/truncate for any prior target), borrowAs_roundtrip, intoOwned_eq_index, reborrow_id, "
+            "copy_between_regions for both representations, for slices and rows. Element-level into_owned is identified with the "
+            "owned value in the model (laws compose structurally); scripts check every catalogue entry incl. option/result/tuple "
+            "variants against prior targets.", "§6 C14"),
+    "C15": ("Lean proof (iterator comparison of any two representations equals lexicographic comparison of owned values; order laws) "
+            "+ all-pairs correspondence",
+            "C15.readSlice_eq / readSlice_cmp: the lazy Iterator::eq/cmp over any two representations equals listEq/lexCmp of the owned "
+            "lists; lexCmp_lawful: reflexive, antisymmetric, transitive, eq iff cmp = Equal, closed under nesting. Huffman raw vs "
+            "encoded items are covered by the correspondence (all pairs across a raw and an encoded container).", "§6 C15"),
 }
 
 
